@@ -7,6 +7,14 @@
 #include "common/dyn.h"
 #include "bitserializer/types/std/map.h"
 #include "bitserializer/types/std/vector.h"
+#include "bitserializer/types/std/tuple.h"
+#include "bitserializer/types/std/optional.h"
+#include "bitserializer/types/std/array.h"
+#include "bitserializer/types/std/deque.h"
+#include <tuple>
+#include <optional>
+#include <array>
+#include <deque>
 #include <map>
 #include <set>
 #include <cstdio>
@@ -385,6 +393,45 @@ void run_csv(vf::Ctx& c) {
 }
 
 } // namespace
+
+// validators on objects that live inside the other std adapters (tuple, optional, array, deque): the exception that reports them has to
+// travel through the adapters' own error handling unchanged, also when maxValidationErrors stops the load inside the adapter
+namespace {
+struct Leaf { int32_t q = -77; template <class A> void Serialize(A& a) { a << KeyValue("q", q, Required(), Range<int32_t>(0, 100)); } };
+struct Holder {
+	std::tuple<Leaf, Leaf, Leaf> t; std::optional<Leaf> op; std::array<Leaf, 2> ar; std::deque<Leaf> dq;
+	template <class A> void Serialize(A& a) { a << KeyValue("t", t) << KeyValue("op", op) << KeyValue("ar", ar) << KeyValue("dq", dq); }
+};
+template <class A> void run_adapters(vf::Ctx& c, int archId) {
+	size_t failing = 0; std::vector<int> st; std::vector<int32_t> want;
+	auto leaf = [&]() -> Val { const int k = c.src.chance(1, 2) ? 0 : 1 + static_cast<int>(c.src.draw(2)); st.push_back(k); if (k == 2) { failing++; want.push_back(-77); return refmp::mkMap({}); }
+		const int32_t v = k == 0 ? static_cast<int32_t>(c.src.draw(101)) : (c.src.coin() ? 101 + static_cast<int32_t>(c.src.draw(1000)) : -1 - static_cast<int32_t>(c.src.draw(1000))); if (k == 1) failing++; want.push_back(v); return refmp::mkMap({ { refmp::mkStr("q"), refmp::mkInt(v) } }); };
+	std::vector<Val> t{ leaf(), leaf(), leaf() }; const bool hasOp = c.src.coin(); Val op = hasOp ? leaf() : refmp::mkNil(); std::vector<Val> ar{ leaf(), leaf() }; std::vector<Val> dq; for (size_t n = c.src.draw(4); n > 0; n--) dq.push_back(leaf());
+	const Val root = refmp::mkMap({ { refmp::mkStr("t"), refmp::mkArr(t) }, { refmp::mkStr("op"), op }, { refmp::mkStr("ar"), refmp::mkArr(ar) }, { refmp::mkStr("dq"), refmp::mkArr(dq) } });
+	std::string bytes; Cfg mem; Outcome so = dyn::save<A>(root, bytes, mem); if (!so.ok()) c.fail("saving the document failed", so.str());
+	Cfg cfg; cfg.stream = c.src.coin(); cfg.streamKind = cfg.stream ? gen_stream_kind(c.src, archId == MSGPACK) : 0; cfg.chunk = 1 + c.src.draw(40);
+	const size_t cap = choose(c.src, { 0, 0, 1, 1, 2, 3, 4 }); cfg.opt.maxValidationErrors = static_cast<uint32_t>(cap);
+	const size_t expected = cap ? std::min(cap, failing) : failing; c.nontrivial = failing > 0; if (cap && cap <= failing) c.label("cap-reached"); c.label(vf::cat("failing-leaves=", failing > 4 ? 5 : failing));
+	c.describe(vf::cat(arch_name(archId), " adapters cap=", cap, " failing=", failing, " ", refmp::show(root).substr(0, 200), " ", cfg.str()));
+	Holder h; Outcome lo = load<A>(h, bytes, cfg);
+	std::string keys; for (auto& e : lo.errors) keys += e.first + "(" + std::to_string(e.second.size()) + ") ";
+	const std::string d = vf::cat(arch_name(archId), " cap=", cap, " failing leaves=", failing, " doc=", refmp::show(root).substr(0, 400), " [", cfg.str(), "] => ", lo.str(), " fields: ", keys);
+	if (failing == 0) { if (!lo.ok()) c.fail("a load without a failing validator ended in an exception", d); }
+	else {
+		if (lo.ok()) c.fail("ValidationException is not thrown although a validator fails", d);
+		if (lo.k != Outcome::Validation) c.fail("a validation failure inside a std adapter reaches the caller as another exception than ValidationException", d);
+		if (lo.errors.size() != expected) c.fail("the exception does not list exactly the failing fields (limited to maxValidationErrors)", d);
+		for (auto& e : lo.errors) { if (e.second.size() != 1) c.fail("a failing field is reported with other messages than those of its failing validators, in declaration order", d); if (e.first.size() < 2 || e.first.substr(e.first.size() - 2) != "/q") c.fail("the exception lists a field that does not fail (or is beyond the maxValidationErrors limit)", d); }
+	}
+	if (lo.ok() || (lo.k == Outcome::Validation && !(cap && cap <= failing))) {   // the load ran to its end: every leaf is loaded normally
+		std::vector<int32_t> got{ std::get<0>(h.t).q, std::get<1>(h.t).q, std::get<2>(h.t).q }; if (hasOp) got.push_back(h.op ? h.op->q : -999999); got.push_back(h.ar[0].q); got.push_back(h.ar[1].q); for (auto& x : h.dq) got.push_back(x.q);
+		if (got != want) c.fail("a field is not loaded normally (or a not-loaded field was modified) in a load with validators", d);
+		if (!hasOp && h.op) c.fail("a field is not loaded normally (or a not-loaded field was modified) in a load with validators", "optional loaded from null | " + d);
+	}
+}
+}
+VF_PROPERTY(validation_in_adapters_msgpack, 2, "objects with Required + Range on their member inside std::tuple, std::optional, std::array and std::deque members of the root; every leaf in range / out of range / absent; maxValidationErrors in {0,1,2,3,4}: ValidationException iff a leaf fails, exactly min(failing, limit) fields listed, one message each, all leaves loaded normally when the load ran to its end; non-trivial = a leaf fails") { run_adapters<MsgPackArchive>(c, MSGPACK); }
+VF_PROPERTY(validation_in_adapters_json, 2, "same through JSON") { run_adapters<JsonArchive>(c, JSON); }
 
 #define C17_RULE "object with 12 fields (int32, double, string, vector, e-mail string, phone string, uint8, nested object, array of objects, map of objects, registered enum, and for XML a string attribute), each field with 0..3 runtime-chosen validators out of Required / Range / MinSize / MaxSize / Email / PhoneNumber / custom functors (+ a lambda), default or custom messages; document: every field present (values at, just inside, just outside each bound; e-mails and phones built by construction with a known verdict incl. the 64/63/255 length limits), absent, null or mismatched (skipped), free field order; maxValidationErrors in {0,1,2,3,4,8}; memory and 3 kinds of streams; oracle = reference model of the documented rules predicting failing paths and messages in load order; non-trivial = at least one validator fails"
 VF_PROPERTY(validation_msgpack, 4, C17_RULE) { run_object<MsgPackArchive>(c, MSGPACK); }
